@@ -1,2 +1,584 @@
-// Package c05 will hold the check for property C05.
+// Package c05 decides C05: accept, reject and store decisions follow the configured domain policy
+// exactly.  Configurations are written into the process environment and loaded with
+// config.Process(), so the documented lower-casing on load is on the path.  The exported
+// predicates and the wildcard matcher are compared with an independent model (M-policy); live SMTP
+// sessions are judged on reply classes to MAIL/RCPT, the per-transaction recipient count and the
+// store's content after DATA.
 package c05
+
+import (
+	"fmt"
+	"regexp"
+	"sort"
+	"strings"
+
+	"github.com/inbucket/inbucket/v3/pkg/config"
+	"github.com/inbucket/inbucket/v3/pkg/policy"
+	"github.com/inbucket/inbucket/v3/pkg/stringutil"
+
+	"verifharness/internal/fw"
+	"verifharness/internal/gen"
+	"verifharness/internal/sut"
+)
+
+func init() {
+	fw.Register(&fw.Prop{
+		ID:    "C05",
+		Level: "exploration",
+		Rule: "config: both defaults x accept/reject/store/discard lists (0-4 entries from a 16-domain pool incl. sub-domain, near-miss, trailing-dot and " +
+			"IP-literal entries, written lower/MIXED/UPPER case) x 0-3 reject-origin patterns (* and ? at start/middle/end, adjacent stars, longer/shorter than " +
+			"the subject, exact, empty) x MaxRecipients {1,2,5}, written to INBUCKET_SMTP_* variables and loaded by config.Process(); 200 domains per " +
+			"configuration (pool in random/upper case, listed entries re-cased, sub-domains, near-misses, pattern instances and near-misses, empty, random). " +
+			"session: same configurations, 1-3 transactions of MAIL (incl. <>) + 1..Max+3 RCPT + DATA/RSET with plain atom@domain addresses. " +
+			"wild-exh: every pattern over {a,b,*,?} against every subject over {a,b,c} up to the tier's lengths; wild-rand: longer random pairs, half of them " +
+			"pattern instances or one edit away. Non-trivial and distinct by (defaults, limit, outcome classes observed) for sessions, by (defaults, list/" +
+			"pattern shape, decisions) for configurations, by (pattern shape, result) for matcher cases.",
+		Assumptions: []string{
+			"list membership is exact string equality ignoring ASCII case (doc/config.md: 'present in the list'); no sub-domain or trailing-dot equivalence is assumed",
+			"a reject-origin pattern matches the lower-cased sender domain as a whole; '*' = any run incl. empty, '?' = exactly one character; MAIL FROM:<> has the empty domain, matched only by patterns made of '*' alone",
+			"matcher subjects never contain '*' or '?' (a domain accepted by the address parser cannot)",
+			"an environment list consisting of a single empty entry is the unset list; the empty pattern is only generated next to another entry",
+			"live sessions use plain atom@domain without ESMTP parameters and syntactically valid domains, so every 5xx to MAIL/RCPT is a policy decision",
+			"several configurations are loaded one after another in one child process by rewriting the INBUCKET_SMTP_* variables before each config.Process() call",
+		},
+		MinObs: func(tier string) map[string]int64 {
+			return map[string]int64{
+				"configs_loaded": 1000, "predicate_evals": 500000,
+				"accept_true": 50000, "accept_false": 50000, "store_true": 50000, "store_false": 50000,
+				"origin_true": 50000, "origin_false": 20000, "decided_by_case_folding": 5000,
+				"sessions": 1500, "rcpt_accepted": 3000, "rcpt_refused_policy": 2000, "rcpt_refused_limit": 800,
+				"mail_accepted": 2000, "mail_refused_origin": 500, "mail_empty_path_accepted": 100, "mail_empty_path_refused": 20,
+				"messages_stored": 1500, "recipients_discarded": 1000, "transactions_at_limit": 500,
+				"wild_pairs": 400000, "wild_match_true": 20000, "wild_match_false": 100000,
+				"distinct_nontrivial": 500,
+			}
+		},
+		Run: run,
+	})
+}
+
+func run(c *fw.Ctx) {
+	c.Cases("config", c.N(10000, 100000), func(i int, r *fw.Rand) { configCase(c, r) })
+	c.Cases("session", c.N(15000, 250000), func(i int, r *fw.Rand) { sessionCase(c, r) })
+	// exhaustive matcher enumeration: one case per pattern
+	pl, sl := 6, 5
+	if !c.Quick() {
+		pl, sl = 7, 6
+	}
+	subjects := enumerate("abc", sl)
+	c.Cases("wild-exh", countStrings(4, pl), func(i int, r *fw.Rand) { wildExhaustive(c, nthString("ab*?", i), subjects) })
+	c.Cases("wild-rand", c.N(2000, 40000), func(i int, r *fw.Rand) { wildRandom(c, r) })
+}
+
+// ---- predicates ------------------------------------------------------------------------------------
+
+func bstr(b bool) string {
+	if b {
+		return "t"
+	}
+	return "f"
+}
+
+func configCase(c *fw.Ctx, r *fw.Rand) {
+	m := genModel(r)
+	conf := load(c, r, m)
+	c.Count("configs_loaded", 1)
+	pol := &policy.Addressing{Config: conf}
+	seen := map[string]bool{}
+	for k := 0; k < 200; k++ {
+		d, cls := genDomainInput(r, m)
+		lower := d == strings.ToLower(d)
+		caseCls := "lower"
+		if !lower {
+			caseCls = "mixed"
+		}
+		// accept
+		wantA, gotA := m.accepts(d), pol.ShouldAcceptDomain(d)
+		inList := listed(m.Reject, d)
+		if !m.DefAccept {
+			inList = listed(m.Accept, d)
+		}
+		if gotA != wantA {
+			c.Violation(fmt.Sprintf("C05:ShouldAcceptDomain:default=%v,listed=%v,domain-case=%s", m.DefAccept, inList, caseCls),
+				fmt.Sprintf("ShouldAcceptDomain(%q)=%v, documented rule gives %v (default accept %v, accept list %q, reject list %q)", d, gotA, wantA, m.DefAccept, m.Accept, m.Reject),
+				m.describe())
+		}
+		// store
+		wantS, gotS := m.stores(d), pol.ShouldStoreDomain(d)
+		inListS := listed(m.Discard, d)
+		if !m.DefStore {
+			inListS = listed(m.Store, d)
+		}
+		if gotS != wantS {
+			c.Violation(fmt.Sprintf("C05:ShouldStoreDomain:default=%v,listed=%v,domain-case=%s", m.DefStore, inListS, caseCls),
+				fmt.Sprintf("ShouldStoreDomain(%q)=%v, documented rule gives %v (default store %v, store list %q, discard list %q)", d, gotS, wantS, m.DefStore, m.Store, m.Discard),
+				m.describe())
+		}
+		// origin
+		wantO, gotO := m.originOK(d), pol.ShouldAcceptOriginDomain(d)
+		if gotO != wantO {
+			c.Violation(fmt.Sprintf("C05:ShouldAcceptOriginDomain:expected=%v,domain-case=%s,empty=%v", wantO, caseCls, d == ""),
+				fmt.Sprintf("ShouldAcceptOriginDomain(%q)=%v, documented rule gives %v (reject-origin patterns %q)", d, gotO, wantO, m.Origins),
+				m.describe())
+		}
+		c.Count("predicate_evals", 3)
+		c.Count("accept_"+tf(wantA), 1)
+		c.Count("store_"+tf(wantS), 1)
+		c.Count("origin_"+tf(wantO), 1)
+		// how many decisions hinge on case folding (entry or argument not lower case while listed)
+		if (inList || inListS) && (!lower || !exactListed(m, d)) {
+			c.Count("decided_by_case_folding", 1)
+		}
+		seen[cls+"/"+bstr(inList)+bstr(inListS)+bstr(wantO)] = true
+	}
+	var ks []string
+	for k := range seen {
+		ks = append(ks, k)
+	}
+	sort.Strings(ks)
+	c.NonTrivial(fmt.Sprintf("config|%v%v|%d%d%d%d|%s|%s", m.DefAccept, m.DefStore, min1(len(m.Accept)), min1(len(m.Reject)), min1(len(m.Store)), min1(len(m.Discard)),
+		patShapes(m.Origins), strings.Join(ks, ",")))
+	if r.Chance(1, 300) {
+		c.Sample(m.describe())
+	}
+}
+
+func tf(b bool) string {
+	if b {
+		return "true"
+	}
+	return "false"
+}
+
+func min1(n int) int {
+	if n > 1 {
+		return 1
+	}
+	return n
+}
+
+func exactListed(m *policyModel, d string) bool {
+	for _, l := range [][]string{m.Accept, m.Reject, m.Store, m.Discard} {
+		for _, e := range l {
+			if e == d {
+				return true
+			}
+		}
+	}
+	return false
+}
+
+// patShape classifies a pattern: where the wildcards are.
+func patShape(p string) string {
+	if p == "" {
+		return "empty"
+	}
+	var f []string
+	if strings.HasPrefix(p, "*") {
+		f = append(f, "^*")
+	}
+	if strings.HasPrefix(p, "?") {
+		f = append(f, "^?")
+	}
+	if strings.HasSuffix(p, "*") && len(p) > 1 {
+		f = append(f, "*$")
+	}
+	if strings.HasSuffix(p, "?") && len(p) > 1 {
+		f = append(f, "?$")
+	}
+	if strings.Contains(p, "**") {
+		f = append(f, "**")
+	}
+	if len(p) > 2 {
+		mid := p[1 : len(p)-1]
+		if strings.Contains(mid, "*") {
+			f = append(f, "m*")
+		}
+		if strings.Contains(mid, "?") {
+			f = append(f, "m?")
+		}
+	}
+	if strings.Trim(p, "*") == "" {
+		f = append(f, "only*")
+	}
+	if len(f) == 0 {
+		return "literal"
+	}
+	return strings.Join(f, "")
+}
+
+func patShapes(ps []string) string {
+	var s []string
+	for _, p := range ps {
+		s = append(s, patShape(p))
+	}
+	sort.Strings(s)
+	return strings.Join(s, "+")
+}
+
+// ---- live sessions -----------------------------------------------------------------------------------
+
+func sessionDomain(r *fw.Rand, m *policyModel) string {
+	for try := 0; try < 50; try++ {
+		d, _ := genDomainInput(r, m)
+		if validDomain(d) {
+			return d
+		}
+	}
+	return gen.RandCase(r, "alpha.test")
+}
+
+func sessionCase(c *fw.Ctx, r *fw.Rand) {
+	m := genModel(r)
+	conf := load(c, r, m)
+	conf.MailboxNaming = config.LocalNaming
+	env, err := sut.NewEnv(conf, "mem")
+	if err != nil {
+		panic(err)
+	}
+	ss := env.StartSMTP()
+	defer func() {
+		if !ss.Ended() && !ss.Close() {
+			c.Hang("smtp-session-end", "SMTP session did not end after the client closed", "")
+		}
+	}()
+	fail := func(key, what string) {
+		d := m.describe()
+		d["trace"] = ss.Trace
+		c.Violation(key, what, d)
+	}
+	if _, ok := ss.Greeting(); !ok {
+		c.Inconclusive("no SMTP greeting")
+		return
+	}
+	if rep, err := ss.Cmd("EHLO client.test"); err != nil || rep.Code != 250 {
+		c.Inconclusive(fmt.Sprintf("EHLO not acknowledged: %v %v", rep, err))
+		return
+	}
+	c.Count("sessions", 1)
+	outcomes := map[string]bool{}
+	stored := 0 // messages the store must hold so far
+	ntx := r.Range(1, 3)
+	uniq := 0
+	for t := 0; t < ntx; t++ {
+		// MAIL, retried with other senders while policy refuses
+		open := false
+		for att := 0; att < 3 && !open; att++ {
+			var line, dom string
+			empty := r.Chance(1, 6)
+			if empty {
+				line = "MAIL FROM:<>"
+			} else {
+				dom = sessionDomain(r, m)
+				line = "MAIL FROM:<" + r.Pick([]string{"sender", "Bounce-1", "a.b"}) + "@" + dom + ">"
+			}
+			rep, err := ss.Cmd(line)
+			if err != nil {
+				fail("C05:reply-shape", err.Error())
+				return
+			}
+			want := m.originOK(dom)
+			cls := rep.Class()
+			if cls != 2 && cls != 5 {
+				fail("C05:mail-reply-class", fmt.Sprintf("%s answered %s", line, rep.String()))
+				return
+			}
+			if (cls == 2) != want {
+				k := "C05:mail-accepted-despite-reject-origin"
+				if want {
+					k = "C05:mail-refused-without-matching-pattern"
+				}
+				if empty {
+					k += ":empty-reverse-path"
+				}
+				fail(k, fmt.Sprintf("%s answered %s; reject-origin patterns %q say accept=%v", line, rep.String(), m.Origins, want))
+				return
+			}
+			switch {
+			case empty && want:
+				c.Count("mail_empty_path_accepted", 1)
+				outcomes["mail:<>ok"] = true
+			case empty:
+				c.Count("mail_empty_path_refused", 1)
+				outcomes["mail:<>refused"] = true
+			case want:
+				outcomes["mail:ok"] = true
+			default:
+				c.Count("mail_refused_origin", 1)
+				outcomes["mail:refused"] = true
+			}
+			if want {
+				c.Count("mail_accepted", 1)
+				open = true
+			}
+		}
+		if !open {
+			continue
+		}
+		// RCPTs
+		type rc struct{ local, domain string }
+		var accepted []rc
+		nr := r.Range(1, m.Max+3)
+		for k := 0; k < nr; k++ {
+			uniq++
+			local := fmt.Sprintf("r%dx%s", uniq, r.Letters(r.Range(0, 3), letters))
+			dom := sessionDomain(r, m)
+			line := "RCPT TO:<" + local + "@" + dom + ">"
+			rep, err := ss.Cmd(line)
+			if err != nil {
+				fail("C05:reply-shape", err.Error())
+				return
+			}
+			cls := rep.Class()
+			if cls != 2 && cls != 5 {
+				fail("C05:rcpt-reply-class", fmt.Sprintf("%s answered %s", line, rep.String()))
+				return
+			}
+			polOK := m.accepts(dom)
+			room := len(accepted) < m.Max
+			want := polOK && room
+			if (cls == 2) != want {
+				var k string
+				switch {
+				case cls == 2 && !polOK:
+					k = fmt.Sprintf("C05:rcpt-accepted-against-policy:default=%v", m.DefAccept)
+				case cls == 2:
+					k = "C05:rcpt-accepted-beyond-limit"
+				default:
+					k = fmt.Sprintf("C05:rcpt-refused-against-policy:default=%v", m.DefAccept)
+				}
+				fail(k, fmt.Sprintf("%s answered %s; policy accept=%v, %d of %d recipients already accepted", line, rep.String(), polOK, len(accepted), m.Max))
+				return
+			}
+			switch {
+			case want:
+				accepted = append(accepted, rc{local, dom})
+				c.Count("rcpt_accepted", 1)
+				outcomes["rcpt:ok"] = true
+			case !polOK:
+				c.Count("rcpt_refused_policy", 1)
+				outcomes["rcpt:policy"] = true
+			default:
+				c.Count("rcpt_refused_limit", 1)
+				outcomes["rcpt:limit"] = true
+			}
+		}
+		if len(accepted) > m.Max {
+			fail("C05:rcpt-accepted-beyond-limit", fmt.Sprintf("%d recipients accepted in one transaction, limit %d", len(accepted), m.Max))
+			return
+		}
+		if len(accepted) == m.Max {
+			c.Count("transactions_at_limit", 1)
+		}
+		// end of transaction
+		if len(accepted) == 0 || r.Chance(1, 8) {
+			if _, err := ss.Cmd("RSET"); err != nil {
+				fail("C05:reply-shape", err.Error())
+				return
+			}
+			outcomes["end:rset"] = true
+			accepted = nil
+		} else {
+			rep, err := ss.Cmd("DATA")
+			if err != nil || rep.Code != 354 {
+				c.Inconclusive(fmt.Sprintf("DATA with accepted recipients answered %v %v (C03 territory)", rep, err))
+				return
+			}
+			rep, err = ss.Cmd("Subject: c05\r\n\r\nbody\r\n.")
+			if err != nil || rep.Code != 250 {
+				c.Inconclusive(fmt.Sprintf("end of DATA answered %v %v", rep, err))
+				return
+			}
+		}
+		// store content: one message per accepted recipient whose domain the store rule admits
+		var names []string
+		for _, a := range accepted {
+			names = append(names, strings.ToLower(a.local))
+		}
+		snap, err := sut.Snapshot(env.Store, names, false)
+		if err != nil {
+			fail("C05:store-unreadable", err.Error())
+			return
+		}
+		for _, a := range accepted {
+			want := m.stores(a.domain)
+			got := len(snap[strings.ToLower(a.local)])
+			switch {
+			case want && got != 1:
+				fail(fmt.Sprintf("C05:not-stored-against-policy:default=%v", m.DefStore),
+					fmt.Sprintf("recipient %s@%s accepted and the store rule says store, mailbox holds %d messages", a.local, a.domain, got))
+				return
+			case !want && got != 0:
+				fail(fmt.Sprintf("C05:stored-against-policy:default=%v", m.DefStore),
+					fmt.Sprintf("recipient %s@%s accepted and the store rule says discard, mailbox holds %d messages", a.local, a.domain, got))
+				return
+			case want:
+				stored++
+				c.Count("messages_stored", 1)
+				outcomes["stored"] = true
+			default:
+				c.Count("recipients_discarded", 1)
+				outcomes["discarded"] = true
+			}
+		}
+		if n := sut.SnapCount(snap); n != stored {
+			fail("C05:unexpected-store-content", fmt.Sprintf("store holds %d messages, the policy model expects %d", n, stored))
+			return
+		}
+		c.Count("transactions", 1)
+	}
+	var ks []string
+	for k := range outcomes {
+		ks = append(ks, k)
+	}
+	sort.Strings(ks)
+	if len(ks) > 0 {
+		c.NonTrivial(fmt.Sprintf("session|%v%v%d|%s", m.DefAccept, m.DefStore, m.Max, strings.Join(ks, ",")))
+	}
+	if r.Chance(1, 500) {
+		d := m.describe()
+		d["trace_head"] = head(ss.Trace, 14)
+		c.Sample(d)
+	}
+}
+
+func head(t []sut.Exchange, n int) []sut.Exchange {
+	if len(t) > n {
+		return t[:n]
+	}
+	return t
+}
+
+// ---- the wildcard matcher ------------------------------------------------------------------------------
+
+// countStrings is the number of strings of length 0..maxLen over k symbols.
+func countStrings(k, maxLen int) int {
+	n, p := 0, 1
+	for l := 0; l <= maxLen; l++ {
+		n += p
+		p *= k
+	}
+	return n
+}
+
+// nthString enumerates strings over alphabet by length, then lexicographically.
+func nthString(alphabet string, i int) string {
+	k := len(alphabet)
+	l, p := 0, 1
+	for i >= p {
+		i -= p
+		p *= k
+		l++
+	}
+	b := make([]byte, l)
+	for j := l - 1; j >= 0; j-- {
+		b[j] = alphabet[i%k]
+		i /= k
+	}
+	return string(b)
+}
+
+func enumerate(alphabet string, maxLen int) []string {
+	n := countStrings(len(alphabet), maxLen)
+	out := make([]string, n)
+	for i := range out {
+		out[i] = nthString(alphabet, i)
+	}
+	return out
+}
+
+func checkPair(c *fw.Ctx, p string, re *regexp.Regexp, s string) bool {
+	want := oracleMatch(p, re, s)
+	got := stringutil.MatchWithWildcards(p, s)
+	if got != want {
+		lead := "literal"
+		switch {
+		case p == "":
+			lead = "empty-pattern"
+		case p[0] == '*':
+			lead = "star"
+		case p[0] == '?':
+			lead = "question"
+		}
+		c.Violation(fmt.Sprintf("C05:MatchWithWildcards:leading=%s:expected=%v", lead, want),
+			fmt.Sprintf("MatchWithWildcards(%q, %q)=%v, the wildcard rules give %v", p, s, got, want), nil)
+	}
+	return want
+}
+
+func wildExhaustive(c *fw.Ctx, p string, subjects []string) {
+	re := wildRE(p)
+	nt, nf := 0, 0
+	for _, s := range subjects {
+		if checkPair(c, p, re, s) {
+			nt++
+		} else {
+			nf++
+		}
+	}
+	c.Count("wild_pairs", int64(len(subjects)))
+	c.Count("wild_match_true", int64(nt))
+	c.Count("wild_match_false", int64(nf))
+	c.Count("wild_exhaustive_patterns", 1)
+	c.NonTrivial(fmt.Sprintf("wild-exh|%s|%d|%v%v", patShape(p), len(p), nt > 0, nf > 0))
+}
+
+func wildRandom(c *fw.Ctx, r *fw.Rand) {
+	for k := 0; k < 50; k++ {
+		pl := r.Range(0, 14)
+		pb := make([]byte, pl)
+		for j := range pb {
+			pb[j] = "aaabbc**?"[r.Intn(9)]
+		}
+		p := string(pb)
+		var s string
+		how := "random"
+		switch r.Intn(4) {
+		case 0:
+			s = r.Letters(r.Range(0, 16), "abc")
+		case 1:
+			s = instantiateABC(r, p)
+			how = "instance"
+		default:
+			b := []byte(instantiateABC(r, p))
+			how = "edited"
+			if len(b) > 0 {
+				i := r.Intn(len(b))
+				switch r.Intn(3) {
+				case 0:
+					b = append(b[:i], b[i+1:]...)
+				case 1:
+					b[i] = "abc"[r.Intn(3)]
+				default:
+					b = append(b[:i], append([]byte{"abc"[r.Intn(3)]}, b[i:]...)...)
+				}
+			}
+			s = string(b)
+		}
+		res := checkPair(c, p, nil, s)
+		c.Count("wild_pairs", 1)
+		c.Count("wild_match_"+tf(res), 1)
+		rel := "eq"
+		if len(p) > len(s) {
+			rel = "longer"
+		} else if len(p) < len(s) {
+			rel = "shorter"
+		}
+		c.NonTrivial(fmt.Sprintf("wild-rand|%s|%s|%s|%v", patShape(p), how, rel, res))
+	}
+}
+
+func instantiateABC(r *fw.Rand, p string) string {
+	var b strings.Builder
+	for i := 0; i < len(p); i++ {
+		switch p[i] {
+		case '*':
+			b.WriteString(r.Letters(r.Range(0, 3), "abc"))
+		case '?':
+			b.WriteByte("abc"[r.Intn(3)])
+		default:
+			b.WriteByte(p[i])
+		}
+	}
+	return b.String()
+}
